@@ -16,6 +16,21 @@
 (*   live-args  every live entry still reads the arguments it was opened   *)
 (*              with (the entry remembers its value)                       *)
 (*   probe      exactly max(0, thr - |live|) further entries are admitted  *)
+(* Concurrent admission (HotParamConc with K >= 1): "chk" = a caller was    *)
+(* started on its own goroutine and is parked between the rule check and   *)
+(* the statistic slot (yield point chain.checked); "rec" = it was released *)
+(* and api.Entry returned.  Other operations (req, exit, probe, further    *)
+(* chk / rec) happen in between.  As in Check / Record of the design spec: *)
+(*   decision   the outcome reported at "rec" is the admission predicate   *)
+(*              over the entries that were live AT THE CHECK               *)
+(*   tv         a rejection reports |live at the check| + 1                *)
+(*   cap        live entries of a value never exceed thr + (k - 1), k =    *)
+(*              the largest number of callers that were inside the         *)
+(*              admission path at the same time in this trace              *)
+(* and an entry counts as live from its "rec" until its exit, whatever     *)
+(* happened between its check and its record: every later decision and     *)
+(* every probe (exactly thr - live further entries are admitted) is judged *)
+(* against that set.                                                       *)
 (* The abstract state follows the OBSERVED outcome, so it stays in step    *)
 (* with the real code after a reported mismatch.  Many traces are          *)
 (* concatenated; "new" starts one; the first mismatch of a trace is        *)
@@ -30,9 +45,11 @@ VARIABLES
     live,     \* id -> [res, v, args] of the live entries
     seen,     \* <<res, v>> pairs requested so far in this trace
     g,        \* [tr, rules] of the running trace
+    pend,     \* id -> [res, v, args, adm, n, first] of the callers parked between check and record
+    peak,     \* largest number of callers inside the admission path at the same time so far in this trace
     failed
 
-tvars == <<l, live, seen, g, failed>>
+tvars == <<l, live, seen, g, pend, peak, failed>>
 Ev == Trace[l]
 Has(r, f) == f \in DOMAIN r
 
@@ -49,6 +66,9 @@ LiveArgsOK(obs, lv) ==
     /\ Len(obs) = Cardinality(DOMAIN lv)
     /\ \A i \in DOMAIN obs : obs[i].id \in DOMAIN lv /\ obs[i].args = lv[obs[i].id].args
 ExpLive(lv) == [id \in DOMAIN lv |-> lv[id].args]
+\* Capped of HotParamConc: at most thr + (k - 1) live entries for a value, k = callers that overlapped
+Max(a, b) == IF a > b THEN a ELSE b
+CapOK(lv, res, v, k) == v = None \/ ~Ruled(res) \/ Count(lv, res, v) <= Thr(res, v) + Max(k - 1, 0)
 
 Judge(ok, expected) ==
     IF failed \/ ok THEN failed' = failed
@@ -62,6 +82,8 @@ TNew ==
     /\ live' = << >>
     /\ seen' = {}
     /\ g' = [tr |-> Ev.tr, rules |-> Ev.rules]
+    /\ pend' = << >>
+    /\ peak' = 0
     /\ failed' = FALSE
 
 TReq ==
@@ -70,25 +92,67 @@ TReq ==
            n     == IF v = None \/ ~Ruled(Ev.res) THEN 0 ELSE Count(live, Ev.res, v)
            adm   == Admit(live, Ev.res, v)
            live2 == IF Ev.ok THEN live @@ (Ev.id :> [res |-> Ev.res, v |-> v, args |-> Ev.args]) ELSE live
+           pk    == Max(peak, Cardinality(DOMAIN pend) + 1)
            why   == IF Has(Ev, "panic") /\ Ev.panic THEN "panic"
                     ELSE IF Ev.ok # adm THEN "decision"
                     ELSE IF ~Ev.ok /\ Ev.tv # n + 1 THEN "tv"
+                    ELSE IF ~CapOK(live2, Ev.res, v, pk) THEN "cap"
                     ELSE IF ~LiveArgsOK(Ev.live, live2) THEN "live-args"
                     ELSE "ok"
        IN  /\ live' = live2
+           /\ peak' = pk
            /\ seen' = seen \cup {<<Ev.res, v>>}
            /\ Judge(why = "ok",
                     [why |-> why, admit |-> adm, inflight |-> n, v |-> v,
                      thr |-> IF v = None \/ ~Ruled(Ev.res) THEN -1 ELSE Thr(Ev.res, v),
                      first |-> (<<Ev.res, v>> \notin seen), tv |-> n + 1, live |-> ExpLive(live2)])
-    /\ UNCHANGED g
+    /\ UNCHANGED <<g, pend>>
+
+\* Check of HotParamConc: a caller has taken its decision and is parked before the statistic slot.  The decision
+\* the property demands is fixed HERE, from the entries live now; it is compared with the outcome at "rec".
+TChk ==
+    /\ IsEvent("chk")
+    /\ LET v == VOf(Ev)
+           n == IF v = None \/ ~Ruled(Ev.res) THEN 0 ELSE Count(live, Ev.res, v)
+       IN  /\ pend' = pend @@ (Ev.id :> [res |-> Ev.res, v |-> v, args |-> Ev.args, adm |-> Admit(live, Ev.res, v), n |-> n,
+                                         first |-> (<<Ev.res, v>> \notin seen)])
+           /\ seen' = seen \cup {<<Ev.res, v>>}
+           /\ peak' = Max(peak, Cardinality(DOMAIN pend) + 1)
+           \* a parked caller is not a live entry yet, and it leaves the live entries alone
+           /\ Judge(Ev.id \notin DOMAIN pend /\ Ev.id \notin DOMAIN live /\ LiveArgsOK(Ev.live, live),
+                    [why |-> IF Ev.id \in DOMAIN pend \cup DOMAIN live THEN "chk-of-known-entry" ELSE "live-args",
+                     live |-> ExpLive(live)])
+    /\ UNCHANGED <<live, g>>
+
+\* Record of HotParamConc: the parked caller went through the statistic slot and api.Entry returned
+TRec ==
+    /\ IsEvent("rec")
+    /\ IF Ev.id \notin DOMAIN pend
+         THEN /\ Judge(FALSE, [why |-> "rec-of-unknown-caller"])
+              /\ UNCHANGED <<live, pend>>
+         ELSE LET p     == pend[Ev.id]
+                  live2 == IF Ev.ok THEN live @@ (Ev.id :> [res |-> p.res, v |-> p.v, args |-> p.args]) ELSE live
+                  why   == IF Has(Ev, "panic") /\ Ev.panic THEN "panic"
+                           ELSE IF Ev.ok # p.adm THEN "decision"
+                           ELSE IF ~Ev.ok /\ Ev.tv # p.n + 1 THEN "tv"
+                           ELSE IF ~CapOK(live2, p.res, p.v, peak) THEN "cap"
+                           ELSE IF ~LiveArgsOK(Ev.live, live2) THEN "live-args"
+                           ELSE "ok"
+              IN  /\ live' = live2
+                  /\ pend' = [i \in DOMAIN pend \ {Ev.id} |-> pend[i]]
+                  /\ Judge(why = "ok",
+                           [why |-> why, admit |-> p.adm, inflight |-> p.n, v |-> p.v,
+                            thr |-> IF p.v = None \/ ~Ruled(p.res) THEN -1 ELSE Thr(p.res, p.v),
+                            first |-> p.first, tv |-> p.n + 1, live |-> ExpLive(live2),
+                            cap |-> IF p.v = None \/ ~Ruled(p.res) THEN -1 ELSE Thr(p.res, p.v) + Max(peak - 1, 0)])
+    /\ UNCHANGED <<seen, g, peak>>
 
 TExit ==
     /\ IsEvent("exit")
     /\ live' = [i \in DOMAIN live \ {Ev.id} |-> live[i]]
     /\ Judge(Ev.id \in DOMAIN live /\ LiveArgsOK(Ev.live, live'),
              [why |-> IF Ev.id \in DOMAIN live THEN "live-args" ELSE "exit-of-unknown-entry", live |-> ExpLive(live')])
-    /\ UNCHANGED <<seen, g>>
+    /\ UNCHANGED <<seen, g, pend, peak>>
 
 \* how many further entries for (res, args) are admitted now; they are exited again by the driver
 TProbe ==
@@ -103,17 +167,17 @@ TProbe ==
            /\ Judge(why = "ok", [why |-> why, n |-> exp, tv |-> exp + n + 1, v |-> v, inflight |-> n,
                                  live |-> ExpLive(live)])
     /\ seen' = seen \cup {<<Ev.res, VOf(Ev)>>}
-    /\ UNCHANGED <<live, g>>
+    /\ UNCHANGED <<live, g, pend, peak>>
 
 \* many goroutines opened and exited entries concurrently; all of them have exited (quiescence).
 \* Nothing is judged here: the probes that follow judge conservation.
 TStress ==
     /\ IsEvent("stress")
     /\ seen' = seen \cup { <<Ev.used[i][1], Ev.used[i][2]>> : i \in DOMAIN Ev.used }
-    /\ Judge(live = << >>, [why |-> "stress-with-live-entries"])
-    /\ UNCHANGED <<live, g>>
+    /\ Judge(live = << >> /\ pend = << >>, [why |-> "stress-with-live-entries"])
+    /\ UNCHANGED <<live, g, pend, peak>>
 
-TInit == l = 1 /\ live = << >> /\ seen = {} /\ g = [tr |-> 0, rules |-> << >>] /\ failed = FALSE
-TNext == TNew \/ TReq \/ TExit \/ TProbe \/ TStress
+TInit == l = 1 /\ live = << >> /\ seen = {} /\ g = [tr |-> 0, rules |-> << >>] /\ pend = << >> /\ peak = 0 /\ failed = FALSE
+TNext == TNew \/ TReq \/ TChk \/ TRec \/ TExit \/ TProbe \/ TStress
 TSpec == TInit /\ [][TNext]_tvars
 =============================================================================
